@@ -82,7 +82,7 @@ STRENGTH = {
  "C04-F": "missed at first; sequences of launches in one container environment, each with its own filter/limit options, the program reporting its seccomp mode and limits",
  "C05-F": "missed at first (an empty table was never drawn); the empty table and a table whose only entry is filtered out are now drawn in one case of ten; the script no longer changes the mode of / and the harness removes what an escaped probe plants on the host",
  "C06-F": "missed at first; the launcher now sometimes holds an inheritable descriptor (its own stdio, or a fresh one) at the number of a slot marked 'close'",
- "C07-E": "missed at first; failing launches are now also made with descriptor tables that put the error channel 0..2 numbers above the scratch start of the shuffle, with more relocations than that",
+ "C07-E": "missed at first; failing launches are now also made with descriptor tables that put the error channel 1..3 numbers above the scratch start of the shuffle, with more relocations than that",
  "C07-F": "missed at first; failing launches are now also made while the caller has another, already ended and uncollected child, whose status must stay collectible",
  "C08-F": "missed at first; the measured-bound cases now also end by a fault, an abort, a termination signal or a non-zero exit after the bound was exceeded",
  "C09-E": "missed at first; container programs (and their children) now send every signal 1..64 to pid 1 of their namespace before exiting with their own code",
